@@ -260,7 +260,15 @@ func (kt *KustTarget) IgnoreLocal(ra *accumulator.ResAccumulator) error {
 	if err != nil {
 		return err
 	}
-	return ra.Intersection(kt.rFactory.FromResourceSlice(remainRes))
+	// not Factory.FromResourceSlice: it panics when two of the resources share an id
+	// (possible after a transformer rewrote names), which is an error to report
+	remaining := resmap.New()
+	for _, r := range remainRes {
+		if err := remaining.Append(r); err != nil {
+			return err
+		}
+	}
+	return ra.Intersection(remaining)
 }
 
 func (kt *KustTarget) runGenerators(
